@@ -13,12 +13,18 @@ package circuitbreaker
 // Established by package initialisation (errors.New returns distinct non-nil values); assumed here.
 //@ axiom ErrCircuitBreakerOpen != nil && ErrTooManyRequests != nil && ErrCircuitBreakerOpen != ErrTooManyRequests
 
+// Ghost history: admitted = trial requests admitted since the breaker last went from open to half-open;
+// prev = state before the latest setState call (to recognise a real transition).
+//@ ghost field CircuitBreaker.admitted Int
+//@ ghost field CircuitBreaker.prev Int
+
 // What holds whenever the lock is free, under every interleaving (the schedule-stable part of cbInv):
 // in particular never more than max_requests trial requests are admitted, however they arrive.
 //@ monitor CircuitBreaker.mutex cb
-//@   guards state, failureCount, successCount, requestCount, lastFailureTime, lastSuccessTime, nextAttempt
+//@   guards state, failureCount, successCount, requestCount, lastFailureTime, lastSuccessTime, nextAttempt, admitted, prev
 //@   inv state_range: 0 <= cb.state && cb.state <= 2
 //@   inv admitted_le_max: cb.state == StateHalfOpen ==> cb.requestCount <= cb.maxRequests
+//@   inv trials_counted_in_total: cb.state == StateHalfOpen ==> cb.admitted == cb.requestCount
 
 // State-change notifications. Assumed of an installed callback: it returns and does not panic. Guaranteed
 // to it (obligation below, at every place a notification is run): the breaker's lock is NOT held, so the
@@ -40,11 +46,13 @@ package circuitbreaker
 //@   props C07 C08
 //@   mode seq, mon
 //@   requires wlocked(cb.mutex)
+//@   ghost exit if cb.state == StateHalfOpen && result == nil :: cb.admitted := cb.admitted + 1
+//@   ensures trial_is_counted: cb.admitted == old(cb.admitted) + (cb.state == StateHalfOpen && result == nil ? 1 : 0)
 //@   ensures closed: cb.state == StateClosed ==> result == nil && cb.requestCount == old(cb.requestCount)
 //@   ensures open: cb.state == StateOpen ==> result == ErrCircuitBreakerOpen && cb.requestCount == old(cb.requestCount)
 //@   ensures half_open_counts_trial: cb.state == StateHalfOpen && old(cb.requestCount) < cb.maxRequests ==> result == nil && cb.requestCount == old(cb.requestCount) + 1
 //@   ensures half_open_limit: cb.state == StateHalfOpen && old(cb.requestCount) >= cb.maxRequests ==> result == ErrTooManyRequests && cb.requestCount == old(cb.requestCount)
-//@   modifies cb.requestCount
+//@   modifies cb.requestCount, cb.admitted
 
 //@ func (*CircuitBreaker).recordResultLocked
 //@   props C07 C08
@@ -91,6 +99,8 @@ package circuitbreaker
 //@ func (*CircuitBreaker).beforeRequest
 //@   props C07 C08
 //@   mode seq, mon
+//@   ghost before setState :: cb.prev := cb.state
+//@   ghost after setState if cb.prev == StateOpen && cb.state == StateHalfOpen :: cb.admitted := 0
 //@   requires unlocked(cb.mutex) && cbCfg(cb)
 //@   requires seq: cbInv(cb)
 //@   ensures seq: inv: cbInv(cb)
@@ -108,7 +118,7 @@ package circuitbreaker
 //@             && (result != nil ==> result == ErrTooManyRequests && cb.requestCount == old(cb.requestCount))
 //@   ensures result_kind: result == nil || result == ErrCircuitBreakerOpen || result == ErrTooManyRequests
 //@   ensures seq: failures_kept: cb.lastFailureTime == old(cb.lastFailureTime) && cb.nextAttempt == old(cb.nextAttempt)
-//@   modifies cb.state, cb.failureCount, cb.successCount, cb.requestCount
+//@   modifies cb.state, cb.failureCount, cb.successCount, cb.requestCount, cb.admitted, cb.prev
 
 // quiescent: no trial request is in flight (every admitted trial has reported)
 //@ pred quiescent(cb *CircuitBreaker) := cb.state == StateHalfOpen ==> cb.requestCount == cb.successCount
@@ -149,7 +159,7 @@ package circuitbreaker
 //@                && cb.successCount == (old(cb.state) == StateHalfOpen ? old(cb.successCount) + 1 : 1))
 //@   ensures_panic panicked_in_fn: calls(fn) == 1
 //@   ensures_panic seq: panic_counts_as_failure: cb.lastFailureTime == now() && cbInv(cb)
-//@   modifies cb.state, cb.failureCount, cb.successCount, cb.requestCount, cb.lastFailureTime, cb.lastSuccessTime, cb.nextAttempt
+//@   modifies cb.state, cb.failureCount, cb.successCount, cb.requestCount, cb.lastFailureTime, cb.lastSuccessTime, cb.nextAttempt, cb.admitted, cb.prev
 
 //@ func NewCircuitBreaker
 //@   props C07 C08
